@@ -234,10 +234,10 @@ func (rb *robust) exec(cfg engineCfg, src string, env map[string]*V, caseLine, c
 	rb.class = class
 	budget := caseBudget(spelledCost(src, len(caseLine)-len(src)*2, maxCollection(env)))
 	limit := 50 * budget
-	hard := limit
-	if hard > caseHardLimit {
-		hard = caseHardLimit
+	if limit > caseHardLimit {
+		limit = caseHardLimit // nothing the generators build legitimately runs this long
 	}
+	hard := limit
 	if hard < 300*time.Millisecond {
 		hard = 300 * time.Millisecond // the kill limit is never below 0.3 s: scheduling noise must not kill workers
 	}
@@ -249,7 +249,7 @@ func (rb *robust) exec(cfg engineCfg, src string, env map[string]*V, caseLine, c
 		case status == "died" && status2 == "died":
 			rb.violate("process-death", firstLine(info2), caseLine, "the process running the case died twice: "+info2+"   source: "+short(fmt.Sprintf("%q", src), 300))
 			o2.Res = "died"
-		case (status2 == "timeout" || o2.Elapsed > limit) && (status == "timeout" || o.Elapsed > limit) && limit <= caseHardLimit:
+		case (status2 == "timeout" || o2.Elapsed > limit) && (status == "timeout" || o.Elapsed > limit):
 			rb.violate("time", class, caseLine, fmt.Sprintf("took %v and %v (killed at %v); nominal budget %v for %d source bytes (50x = %v)   source: %s",
 				o.Elapsed, o2.Elapsed, hard, budget, len(src), limit, short(fmt.Sprintf("%q", src), 300)))
 			if status2 == "timeout" {
@@ -328,7 +328,7 @@ func startWorker() *worker {
 		panic(err)
 	}
 	cmd := exec.Command(exe, "-stream", "robust-worker")
-	cmd.Env = append(os.Environ(), "GOMEMLIMIT=1GiB", "GOMAXPROCS=2")
+	cmd.Env = append(os.Environ(), "GOMEMLIMIT=2GiB", "GOMAXPROCS=2")
 	in, err := cmd.StdinPipe()
 	if err != nil {
 		panic(err)
@@ -598,6 +598,22 @@ func robustStream(r *Run) {
 	for _, f := range forms1[:6] {
 		for _, a := range U {
 			run(engineCfg{Strict: true}, f, map[string]*V{"a": a}, "matrix-form")
+		}
+	}
+
+	// (1b) the range boundary family (pure templates): extreme endpoints, and lengths around the
+	// array-conversion bound, converted to arrays by filters or iterated lazily by loops
+	const maxI, minI = "9223372036854775807", "-9223372036854775808"
+	bRanges := []string{"(" + maxI + ".." + maxI + ")", "(9223372036854775800.." + maxI + ")", "(1.." + maxI + ")", "(-1.." + maxI + ")",
+		"(" + minI + ".." + maxI + ")", "(" + minI + ".." + minI + ")", "(" + minI + "..-9223372036854775805)", "(" + maxI + ".." + minI + ")",
+		"(0..9999999)", "(1..10000000)", "(1..10000001)", "(0..10000000)", "(9999998..10000003)", "(5..1)", "(0..2000)", "(1..4294967296)"}
+	bTails := []string{"{{ R | first }}", "{{ R | last }}", "{{ R | size }}", "{{ R | join | size }}", "{{ R | concat: R | size }}", "{{ R }}", "{{ R | reverse | first }}",
+		"{% for i in R limit: 2 %}{{ i }},{% else %}E{% endfor %}", "{% for i in R reversed limit: 2 %}{{ i }},{% endfor %}",
+		"{% for i in R offset: 9999999 limit: 2 %}{{ i }},{% endfor %}", "{% tablerow i in R limit: 2 cols: 2 %}{{ i }}{% endtablerow %}",
+		"{% assign r = R %}{{ r.first }}{{ r[0] }}{{ r.size }}", "{% if R contains 3 %}T{% else %}F{% endif %}", "{% if R == R %}T{% else %}F{% endif %}"}
+	for _, rg := range bRanges {
+		for _, tl := range bTails {
+			run(plain, strings.ReplaceAll(tl, "R", rg), map[string]*V{}, "range-boundary")
 		}
 	}
 
